@@ -81,6 +81,9 @@ Out == [id |-> Trees[ti].id, text |-> text \o "\n", mode |-> mode,
         valid |-> WithStatic /\ Valid(Trees[ti]),
         names |-> IF WithStatic THEN SetToSeq({<<x[1], spans[nodes[x[2]].f].s.ln, spans[nodes[x[2]].f].s.ch, spans[nodes[x[2]].l].e.ln, spans[nodes[x[2]].l].e.ch, nodes[x[2]].name>>
                                               : x \in NameDiagSet(nodes)})
+                  ELSE <<>>,
+        maybe |-> IF WithStatic THEN SetToSeq({<<x[1], spans[nodes[x[2]].f].s.ln, spans[nodes[x[2]].f].s.ch, spans[nodes[x[2]].l].e.ln, spans[nodes[x[2]].l].e.ch, nodes[x[2]].name>>
+                                              : x \in MaybeUnusedSet(nodes)})
                   ELSE <<>>]
 EmitInv == Done => PrintT("GEN " \o ToJson(Out))
 =============================================================================
